@@ -61,8 +61,13 @@ __END_DECLS
 #define hlist_for_each(pos, head)                                              \
     for (pos = (head)->first; pos != 0; pos = pos->next)
 
+#define hlist_entry_or_null(ptr, type, member)                                 \
+    ((ptr) ? hlist_entry(ptr, type, member) : (type *)0)
+
 #define hlist_for_each_entry(pos, head, member)                                \
-    for (pos = hlist_first_entry(head, __typeof__(*pos), member);              \
-         &pos->member != 0; pos = hlist_next_entry(pos, member))
+    for (pos = hlist_entry_or_null((head)->first, __typeof__(*pos), member);   \
+         pos != 0;                                                             \
+         pos = hlist_entry_or_null((pos)->member.next, __typeof__(*pos),       \
+                                   member))
 
 #endif
